@@ -199,8 +199,9 @@ def E_cmp_values(t, r):
             r = np.broadcast_to(r, t.shape)
         except ValueError:
             return "shape"
+    cast = r.dtype != t.dtype
     with np.errstate(all="ignore"):
-        if r.dtype != t.dtype:
+        if cast:
             try:
                 r = r.astype(t.dtype)
             except Exception:  # noqa
@@ -218,7 +219,8 @@ def E_cmp_values(t, r):
                 scale = np.maximum(np.abs(tt[fin]), np.abs(rr[fin]))
                 err = np.abs(tt[fin] - rr[fin])
                 if np.all(err <= 4 * eps * scale):
-                    return "rounding"
+                    # computed in another type and cast (double rounding) vs computed in the target's type
+                    return "rounding-cast" if cast else "rounding"
     return "values"
 
 
